@@ -30,6 +30,7 @@ type KVOp struct {
 	CAS    uint64
 	Body   string
 	Query  string
+	Local  string // local address the request arrived on (one listener per simulated client, see AddListener)
 }
 
 // Verdict of a Gate.
@@ -45,12 +46,13 @@ const (
 
 // FakeConsul is a minimal in-memory Consul KV HTTP API.
 type FakeConsul struct {
-	mu    sync.Mutex
-	kv    map[string]*kvEntry
-	index uint64
-	Addr  string
-	seq   int
-	log   []KVOp
+	mu      sync.Mutex
+	kv      map[string]*kvEntry
+	index   uint64
+	Addr    string
+	seq     int
+	log     []KVOp
+	outcome map[int]string // per request seq: "true" | "false" | "cut-applied" | "dropped" | "500" | "404" | "value"
 	// Gate, if set, is consulted (without the store lock held; it may block) for every request
 	// whose key has GatePrefix.
 	Gate       func(op KVOp) Verdict
@@ -75,6 +77,17 @@ func NewFakeConsul() *FakeConsul {
 }
 
 func (c *FakeConsul) Close() { c.srv.Close() }
+
+// AddListener opens one more listening address for the same store, so that requests of
+// different simulated clients can be told apart (KVOp.Local).
+func (c *FakeConsul) AddListener() string {
+	ln, err := net.Listen("tcp", "127.0.0.1:0")
+	if err != nil {
+		panic(err)
+	}
+	go c.srv.Serve(ln)
+	return ln.Addr().String()
+}
 
 func (c *FakeConsul) Put(key, val string) {
 	c.mu.Lock()
@@ -108,6 +121,20 @@ func (c *FakeConsul) Get(key string) (string, bool) {
 	return string(e.Value), true
 }
 
+// Outcome tells how request seq was answered.
+func (c *FakeConsul) Outcome(seq int) string {
+	c.mu.Lock()
+	defer c.mu.Unlock()
+	return c.outcome[seq]
+}
+
+func (c *FakeConsul) setOutcome(seq int, o string) {
+	if c.outcome == nil {
+		c.outcome = map[int]string{}
+	}
+	c.outcome[seq] = o
+}
+
 // Log returns a copy of the request log.
 func (c *FakeConsul) Log() []KVOp {
 	c.mu.Lock()
@@ -137,6 +164,9 @@ func (c *FakeConsul) handleKV(w http.ResponseWriter, r *http.Request) {
 	q := r.URL.Query()
 	body, _ := io.ReadAll(r.Body)
 	op := KVOp{Method: r.Method, Key: key, Body: string(body), Query: r.URL.RawQuery}
+	if la, ok := r.Context().Value(http.LocalAddrContextKey).(net.Addr); ok {
+		op.Local = la.String()
+	}
 	if casS, ok := q["cas"]; ok {
 		op.HasCAS = true
 		op.CAS, _ = strconv.ParseUint(casS[0], 10, 64)
@@ -154,14 +184,23 @@ func (c *FakeConsul) handleKV(w http.ResponseWriter, r *http.Request) {
 	}
 	switch verdict {
 	case DropBefore:
+		c.mu.Lock()
+		c.setOutcome(op.Seq, "dropped")
+		c.mu.Unlock()
 		cut(w)
 		return
 	case Refuse500:
+		c.mu.Lock()
+		c.setOutcome(op.Seq, "500")
+		c.mu.Unlock()
 		w.WriteHeader(500)
 		fmt.Fprint(w, "injected failure")
 		return
 	case RefuseCAS:
 		if r.Method == "PUT" {
+			c.mu.Lock()
+			c.setOutcome(op.Seq, "false")
+			c.mu.Unlock()
 			fmt.Fprint(w, "false")
 			return
 		}
@@ -222,15 +261,18 @@ func (c *FakeConsul) handleKV(w http.ResponseWriter, r *http.Request) {
 		if op.HasCAS {
 			e, exists := c.kv[key]
 			if (op.CAS == 0 && exists) || (op.CAS != 0 && (!exists || e.ModifyIndex != op.CAS)) {
+				c.setOutcome(op.Seq, "false")
 				fmt.Fprint(w, "false")
 				return
 			}
 		}
 		c.putLocked(key, body)
 		if verdict == ApplyThenCut {
+			c.setOutcome(op.Seq, "cut-applied")
 			cut(w)
 			return
 		}
+		c.setOutcome(op.Seq, "true")
 		fmt.Fprint(w, "true")
 	case "DELETE":
 		if _, ok := q["recurse"]; ok {
